@@ -4,7 +4,7 @@
    (a concrete executor), Gen/KeyTable.v (regenerated from command.rs / sharded_actor.rs). *)
 From stdpp Require Import gmap.
 From Coq Require Import NArith ZArith String.
-From RV Require Import Lib.Hex Lib.SipHash Gen.KeyTable Model.Shard Model.MiniKV Proofs.ShardProofs.
+From RV Require Import Lib.Hex Lib.SipHash Gen.KeyTable Model.Shard Model.MiniKV Proofs.ShardProofs Proofs.ShardWitness.
 
 (* Both routing functions send every key to the same shard, for every shard count
    (hash_key delegates to hash_key_bytes since /repo 36d66e2). *)
